@@ -13,6 +13,56 @@ mod workload;
 
 use plan::Tier;
 
+pub mod mem {
+    //! counting global allocator: live and peak bytes of the whole cell process
+    use std::alloc::{GlobalAlloc, Layout, System};
+    use std::sync::atomic::{AtomicUsize, Ordering::Relaxed};
+
+    pub struct Counting;
+    static LIVE: AtomicUsize = AtomicUsize::new(0);
+    static PEAK: AtomicUsize = AtomicUsize::new(0);
+
+    unsafe impl GlobalAlloc for Counting {
+        unsafe fn alloc(&self, layout: Layout) -> *mut u8 {
+            let p = unsafe { System.alloc(layout) };
+            if !p.is_null() {
+                let now = LIVE.fetch_add(layout.size(), Relaxed) + layout.size();
+                PEAK.fetch_max(now, Relaxed);
+            }
+            p
+        }
+        unsafe fn dealloc(&self, p: *mut u8, layout: Layout) {
+            unsafe { System.dealloc(p, layout) };
+            LIVE.fetch_sub(layout.size(), Relaxed);
+        }
+        unsafe fn realloc(&self, p: *mut u8, layout: Layout, new_size: usize) -> *mut u8 {
+            let q = unsafe { System.realloc(p, layout, new_size) };
+            if !q.is_null() {
+                if new_size >= layout.size() {
+                    let now = LIVE.fetch_add(new_size - layout.size(), Relaxed) + new_size - layout.size();
+                    PEAK.fetch_max(now, Relaxed);
+                } else {
+                    LIVE.fetch_sub(layout.size() - new_size, Relaxed);
+                }
+            }
+            q
+        }
+    }
+
+    pub fn live() -> usize {
+        LIVE.load(Relaxed)
+    }
+    pub fn peak() -> usize {
+        PEAK.load(Relaxed)
+    }
+    pub fn reset_peak() {
+        PEAK.store(LIVE.load(Relaxed), Relaxed);
+    }
+}
+
+#[global_allocator]
+static GLOBAL: mem::Counting = mem::Counting;
+
 pub const HOST_SRC: &str = include_str!("../abra_host/simhost.abra");
 
 fn arg<'a>(args: &'a [String], name: &str) -> Option<&'a str> {
